@@ -187,3 +187,10 @@ def check(run):
     run.bounds += [f"tier={t}: {len(ents)} (field, operation) shapes; emulated fields {sorted(set(e['params']['field'] for e in ents))} over the BLS12-381 scalar field; k=11"]
     run.notes.append("Engine C + chained foreign-field obligations: Sys => val(out) == f(val(in)) (mod m) for all limb representations within the chip's bounds.")
     cengine.run_family(run, "foreign", ents, timeout=60 if t == "quick" else 600, only=getattr(run, "only", None), workers=6)
+    from vf.parts import run_parts
+    run_parts(run, "C05")
+
+
+def replay(payload):
+    from vf.parts import replay_parts
+    return replay_parts("C05", payload)
